@@ -54,6 +54,8 @@ func main() {
 		cmdConc(fs, os.Args[2:])
 	case "crash":
 		cmdCrash(fs, os.Args[2:])
+	case "crashobs":
+		cmdCrashObs(fs, os.Args[2:])
 	case "reclaim":
 		cmdReclaim(fs, os.Args[2:])
 	case "blockmap":
